@@ -151,6 +151,9 @@ func checkC03(e *Env) {
 	}
 	// collected per-exchange / per-signature objects are fresh in every iteration
 	loopAlias(e, "ALIAS", e.fns("bundle.Read", "bundle.(*Bundle).WriteTo")...)
+	// one index / response record per exchange: no value flows from one URL's iteration into the next
+	iterationsIndependent(e, "ITER", e.fns("bundle.Read", "bundle.(*Bundle).WriteTo")...)
+	e.R.Floor("ITER", 10)
 	e.R.Floor("ALIAS", 3)
 	e.R.Floor("TABLE", 3)
 	e.R.Floor("FORALL", 14)
